@@ -476,7 +476,19 @@ def slack_embedding(prog: Program, rep) -> None:
         # orig_vals(v) is v[:self.problem.num_vars]; either spelling drops exactly the slack block
         def drop(nm):
             return (f"self.orig_vals({nm})", f"{nm}[:self.problem.num_vars]")
-        ok = isinstance(v, ast.Tuple) and len(v.elts) == 3 and U(v.elts[0]) in drop(xn) and U(v.elts[1]) == yn and U(v.elts[2]) in drop(dn)
+        def general(e, ident):
+            # `orig_vals(v) if <there are slacks> else v`: the general branch (the other one must be the vector itself)
+            if isinstance(e, ast.IfExp):
+                from ..symex import atoms_of as facts_of_test
+                for pol, br, other in ((True, e.body, e.orelse), (False, e.orelse, e.body)):
+                    try:
+                        fs = facts_of_test(e.test, pol)
+                    except Exception:
+                        fs = ()
+                    if _no_slacks(set(fs)) and U(br) == ident:
+                        return other
+            return e
+        ok = isinstance(v, ast.Tuple) and len(v.elts) == 3 and U(general(v.elts[0], xn)) in drop(xn) and U(v.elts[1]) == yn and U(general(v.elts[2], dn)) in drop(dn)
     rep.check(ok, "slack-layout", rs_.qualname, short(gen[0]) if gen else "", "restore_sol drops exactly the slack block of x and d and passes y through", rs_.loc())
     early = [r for r in returns_of(rs_) if r not in gen]
     rep.check(all(U(r.value).replace(" ", "") == f"({xn},{yn},{dn})" for r in early), "slack-layout", rs_.qualname, "no slacks", "without slacks restore_sol is the identity", rs_.loc())
